@@ -386,7 +386,9 @@ def seeded_models(seed, n, maxd=3, text_mode=False, **kw):
 
 
 # ------------------------------------------------------------------ L(n,m): linear models given directly
-LKINDS_CONT = [D('NNReal', 0, 'inf'), D('Real', '-inf', 'inf'), D('Real', -2, 3), D('Real', '-inf', 3), D('NNReal', 1, 4), D('Real', 1, 'inf')]
+LKINDS_CONT = [D('NNReal', 0, 'inf'), D('Real', '-inf', 'inf'), D('Real', -2, 3), D('Real', '-inf', 3), D('NNReal', 1, 4), D('Real', 1, 'inf'),
+               # boundary values of the bound tests in the standardizer: a Real range that starts / ends exactly at 0
+               D('Real', 0, 5), D('Real', 0, 'inf'), D('Real', -3, 0), D('NNReal', 0, 4)]
 LKINDS_INT = [D('Boolean'), D('Int', -1, 2), D('Int', 0, 3)]
 
 
@@ -406,7 +408,7 @@ def lm_spec(kinds, rows, obj, dir_, off=0, names=None):
 
 def l_exhaustive(cont_only=False, level=0):
     """every linear model with n+m <= 3 over a reduced alphabet"""
-    kinds = LKINDS_CONT[:4] if cont_only else LKINDS_CONT[:4] + LKINDS_INT[:2]
+    kinds = LKINDS_CONT[:4] + LKINDS_CONT[6:7] if cont_only else LKINDS_CONT[:4] + LKINDS_CONT[6:7] + LKINDS_INT[:2]
     if level:
         kinds = LKINDS_CONT if cont_only else LKINDS_CONT + LKINDS_INT
     A = [1, -1, 0, 2] if not level else [1, -1, 0, 2, 0.5]
@@ -432,14 +434,26 @@ def l_exhaustive(cont_only=False, level=0):
             for a1, a2, c, b in itertools.product(A, A, CM, B):
                 out.append(lm_spec([k1, k2], [([a1, a2], c, b)], [o1, o2], d))
     # n=3, m=0
-    for ks in itertools.product(kinds[:4], repeat=3):
+    for ks in itertools.product(kinds[:3], repeat=3):
         for d in ('min', 'max'):
             out.append(lm_spec(list(ks), [], [1, -1, 0.5], d))
     return out
 
 
-def l_seeded(seed, n, cont_only=False, maxn=3, maxm=3, coefs=None, rhss=None, named=False, tiny=False, offsets=False, satisfy=False):
+# values inside and just outside the tolerances the code base compares with (1e-5, 1e-9): a sign or zero test
+# written with a tolerant comparison goes wrong exactly here
+PROBES = [2.0 ** -20, -2.0 ** -20, 2.0 ** -18, -2.0 ** -18, 2.0 ** -10, -2.0 ** -10, 2.0 ** -34, -2.0 ** -34]
+
+
+def l_seeded(seed, n, cont_only=False, maxn=3, maxm=3, coefs=None, rhss=None, named=False, tiny=False, offsets=False, satisfy=False, probe=()):
+    """probe: fields ('coef', 'rhs', 'obj', 'off') that receive a tolerance-probe value with probability 5%"""
     r = random.Random(seed)
+    pr = random.Random(seed * 7919 + 1)
+
+    probes = [p for p in PROBES if abs(p) > 1e-9] if 'solver' in probe else PROBES
+
+    def P(field, v):
+        return pr.choice(probes) if field in probe and pr.random() < 0.05 else v
     coefs = coefs or [0, 1, -1, 2, -2, 0.5, 3, -0.5, 4, 1.5]
     rhss = rhss or [0, 1, -1, 2, -2, 3, 0.5, 4, -3, 2.5]
     if tiny:
@@ -458,14 +472,16 @@ def l_seeded(seed, n, cont_only=False, maxn=3, maxm=3, coefs=None, rhss=None, na
             elif x < 0.12 and rows:
                 a = list(rows[-1][0])  # duplicate / parallel row
             else:
-                a = [r.choice(coefs) for _ in range(nv)]
-            rows.append((a, r.choice(['<=', '>=', '=', '<=', '>=']), r.choice(rhss)))
-        obj = [r.choice([0, 1, -1, 2, -2, 0.5, 3]) for _ in range(nv)]
+                a = [P('coef', r.choice(coefs)) for _ in range(nv)]
+            rows.append((a, r.choice(['<=', '>=', '=', '<=', '>=']), P('rhs', r.choice(rhss))))
+        obj = [P('obj', r.choice([0, 1, -1, 2, -2, 0.5, 3])) for _ in range(nv)]
         dirs = ['min', 'max'] + (['solve'] if satisfy else [])
         names = None
         if named:
             names = [('r%d' % i) if r.random() < 0.8 else '' for i in range(nr)]
-        off = r.choice([0, 0, 1.5, -2]) if offsets else 0
+        off = P('off', r.choice([0, 0, 1.5, -2])) if offsets else 0
+        if offsets and 'off' in probe and pr.random() < 0.1:
+            off = pr.choice(probes)
         d = r.choice(dirs)
         if d == 'solve':
             obj = [0] * nv   # a satisfy model has no objective function
